@@ -185,6 +185,28 @@ func fixStdlib(interp *Interpreter) {
 		c := flag.NewFlagSet(os.Args[0], flag.PanicOnError)
 		c.SetOutput(stderr)
 		p["CommandLine"] = reflect.ValueOf(&c).Elem()
+
+		// When the interpreter was given its own arguments, the package level functions
+		// operate on the command line of the interpreter, not on the one of the host.
+		ownArgs := len(interp.args) > 0 && (len(os.Args) == 0 || &interp.args[0] != &os.Args[0])
+		for name, fn := range map[string]interface{}{
+			"Arg": c.Arg, "Args": c.Args, "Bool": c.Bool, "BoolFunc": c.BoolFunc, "BoolVar": c.BoolVar,
+			"Duration": c.Duration, "DurationVar": c.DurationVar, "Float64": c.Float64, "Float64Var": c.Float64Var,
+			"Func": c.Func, "Int": c.Int, "Int64": c.Int64, "Int64Var": c.Int64Var, "IntVar": c.IntVar,
+			"Lookup": c.Lookup, "NArg": c.NArg, "NFlag": c.NFlag, "Parsed": c.Parsed, "PrintDefaults": c.PrintDefaults,
+			"Set": c.Set, "String": c.String, "StringVar": c.StringVar, "TextVar": c.TextVar, "Uint": c.Uint,
+			"Uint64": c.Uint64, "Uint64Var": c.Uint64Var, "UintVar": c.UintVar, "Var": c.Var, "Visit": c.Visit,
+			"VisitAll": c.VisitAll,
+			"Parse": func() {
+				if len(interp.args) > 0 {
+					_ = c.Parse(interp.args[1:])
+				}
+			},
+		} {
+			if _, ok := p[name]; ok && ownArgs {
+				p[name] = reflect.ValueOf(fn)
+			}
+		}
 	}
 
 	if p = interp.binPkg["log"]; p != nil {
